@@ -232,6 +232,7 @@ def rule_SQ3(ctx, tier):
             rr.fail("uncommitted:%s" % shortfn(b.id), "`%s` can return normally without committing its transaction (the writes are rolled back on drop)" % shortfn(b.id), where=b.span)
     if n < 9:
         rr.fail("floor:multi-statement-methods", "found %d multi-statement DBM methods, 9 confirmed by reading" % n)
+    rr.require_floor(7, "SQ3 instances")
     return rr
 
 
